@@ -58,7 +58,7 @@ CHECKS = {
    note="Trusted: " + SIM + "; scripted admission returns 422 for one kind; functions are scripted gRPC servers.",
    technique="runtime monitoring: enumerated outcome product against implication oracles on stored conditions", ref="3/C05"),
  "C06": dict(cat="fault_enumeration",
-   text="Production-wired claim reconciler (captured from the real offered reconciler; CSA and SSA syncers) over sim: every API-call index of every claim reconcile x 6 fault outcomes + retries; claim reads served from a cache lagging 1..12 writes; seeded interleavings at API-call granularity with the XR reconciler, a same-named claim in another namespace and user deletion; statically referenced foreign-bound XRs. Invariants (<=1 XR per claim, XR created only under the name already stored on the claim, no write to a foreign-bound XR) checked by a post-write hook on every store state.",
+   text="Production-wired claim reconciler (captured from the real offered reconciler; CSA and SSA syncers) over sim: every API-call index of every claim reconcile x 6 fault outcomes + retries; claim reads served from a cache lagging 1..12 writes; seeded interleavings and an enumerated grid of bounded-preemption plans at API-call granularity with the XR reconciler, a same-named claim in another namespace and user deletion; a cache serving exactly one stale claim read; statically referenced foreign-bound XRs. Invariants (<=1 XR per claim, XR created only under the name already stored on the claim, no write to a foreign-bound XR) checked by a post-write hook on every store state.",
    note="Trusted: " + SIM + " incl. resourceVersion conflicts and the lagging-reader view; never two concurrent reconciles of one claim; random-suffix name collisions out of scope.",
    technique="runtime monitoring: post-write invariant hook + fault enumeration + scheduled interleavings", ref="3/C06"),
  "C07": dict(cat="exploration",
@@ -66,7 +66,7 @@ CHECKS = {
    note="Trusted: the partition table in c07/main.go (written from the statement), sim SSA via k8s managedfields; the XRD preserves unknown fields so no pruning model is needed; removal of fields deleted on the other side is not required (superset semantics for nested maps).",
    technique="runtime monitoring: generated object pairs against a reference field partition", ref="3/C07"),
  "C08": dict(cat="exploration",
-   text="Real definition and offered reconcilers with a capturing engine (the XR and claim reconcilers are the production-wired ones and reconcile only while the engine says their controller runs), interleaved at API-call granularity by a seeded scheduler with user deletions (claim, XR, XRD with foreground/background propagation), the Kubernetes garbage collector and CRD cleanup as explicit actors, a third party stripping finalizers and an injected API error; precedence monitors on every event of the single ordered trace (claim finalizer after XR delete, CRD delete after instances gone and controller stopped, Stop after instances gone, XRD finalizers after CRD gone, nothing terminating left with a stopped controller). The package-revision/Lock and composed-Usage clauses are not covered here.",
+   text="Real definition and offered reconcilers with a capturing engine (the XR and claim reconcilers are the production-wired ones and reconcile only while the engine says their controller runs), interleaved at API-call granularity by a seeded scheduler with user deletions (claim, XR, XRD with foreground/background propagation), the Kubernetes garbage collector and CRD cleanup as explicit actors, a third party stripping finalizers and an injected API error, plus ~3000 enumerated bounded-preemption plans (victim controller preempted twice by intruders); part B: the real revision reconciler's deletion branch with the real PackageDependencyManager over a Lock (every call index x 6 outcomes, concurrent deletions); precedence monitors on every event of the single ordered trace (claim finalizer after XR delete, CRD delete after instances gone and controller stopped, Stop after instances gone, XRD finalizers after CRD gone, nothing terminating left with a stopped controller, revision finalizer removed only when the Lock no longer lists it). The composed-Usage clause is decided by C19.",
    note="Trusted: " + SIM + " incl. the modelled CRD cleanup finalizer and GC foreground/background semantics; a stopped controller reconciles nothing; schedules are seeded random walks, not exhaustive.",
    technique="runtime monitoring: online precedence monitors over a scheduled multi-controller trace", ref="3/C08"),
  "C09": dict(cat="exploration",
@@ -86,7 +86,7 @@ CHECKS = {
    note="Trusted: " + SIM + "; the admission wiring built from usage.yaml; usage controller reads are modelled as fresh; replayDeletion (background goroutine with a sleep) is excluded.",
    technique="runtime monitoring: admission-response and store oracles over enumerated preemptions, fault enumeration and scheduled interleavings", ref="3/C19"),
  "C20": dict(cat="fault_enumeration",
-   text="The init step list of cmd/crossplane/core/init.go rebuilt from the exported constructors over sim and the repository's CRD / webhook yaml: 10 initial stores (empty, partially / fully initialised, secrets with keys missing, stale CA bundles, user-edited defaults, packages pre-installed under custom names in every reference form), runs 1..3, and an API error (500, timeout, applied-but-504) at every call index of a run (sampled in quick) followed by a clean rerun; oracles: run n == run 1, key material never regenerated, issued certificates verify against the stored CA and cover the service DNS names, <=1 package per image repository, defaults untouched, every webhook-conversion CRD and webhook configuration carries the current CA bundle.",
+   text="The init step list of cmd/crossplane/core/init.go rebuilt from the exported constructors over sim and the repository's CRD / webhook yaml: 10 initial stores (empty, partially / fully initialised, secrets with keys missing, stale CA bundles, user-edited defaults, packages pre-installed under custom names in every reference form), runs 1..3, and an API error (500, timeout, applied-but-504) at every call index of a run (sampled in quick) followed by a clean rerun, plus two initialisers racing (enumerated preemption plans, failed ones restarted); oracles: run n == run 1, key material never regenerated, issued certificates verify against the stored CA and cover the service DNS names, <=1 package per image repository, defaults untouched, every webhook-conversion CRD and webhook configuration carries the current CA bundle.",
    note="Trusted: " + SIM + "; the harness's own image-reference parser and x509 verification; one synthetic webhook-conversion CRD is added to exercise CA injection.",
    technique="runtime monitoring: state-equality and x509 oracles over repeated and aborted init runs (fault enumeration over API-call indices)", ref="3/C20"),
 }
